@@ -78,6 +78,22 @@ def abstract_read(r):
     return [[1 if r.is_reverse else 0, r.reference_start, r.reference_end, 1 if has_md else 0, pairs]]
 
 
+def raw_read(r):
+    """what pysam gives for one mate, nothing derived: is_reverse, MD present, query_sequence, query_qualities and
+    the entries of get_aligned_pairs(with_seq=True) (without MD: get_aligned_pairs(), reference character 0);
+    None -> -1.  This is the input of the Coq model of the molecule abstraction (Model/C14x.v, mode 6)."""
+    if r is None:
+        return None
+    has_md = r.has_tag('MD')
+    if has_md:
+        ap = [[-1 if q is None else q, -1 if p is None else p, 0 if b is None else ord(b)]
+              for q, p, b in r.get_aligned_pairs(with_seq=True)]
+    else:
+        ap = [[-1 if q is None else q, -1 if p is None else p, 0] for q, p in r.get_aligned_pairs()]
+    return [[1 if r.is_reverse else 0, 1 if has_md else 0, [ord(ch) for ch in r.query_sequence],
+             [int(x) for x in r.query_qualities], ap]]
+
+
 TAGS = ['MC', 'uC', 'sZ', 'sz', 'sX', 'sx', 'sH', 'sh']
 
 
@@ -113,6 +129,7 @@ def finalise_and_report(mol, contig):
     res = {'taps_strand_used': mol.taps_strand,
            'strand': None if mol.strand is None else (1 if mol.strand else 0),
            'abstract': [[abstract_read(f.reads[0]), abstract_read(f.reads[1])] for f in mol.fragments],
+           'raw': [[raw_read(f.reads[0]), raw_read(f.reads[1])] for f in mol.fragments],
            'n_frags': len(mol.fragments)}
     try:
         mol.__finalise__()
